@@ -67,6 +67,7 @@ class GenCfg:
     module_options: float = 0.0  # probability of py.module_name / go.package_path options (set to the default values)
     p_import_chain: float = 0.0  # probability that an imported file itself imports an earlier imported file
     p_transitive_ref: float = 0.0  # with a chain: probability that the main file reaches the inner file only through the outer one (`b.c.M`)
+    p_odd_basename: float = 0.0  # probability that an imported file's base name is no identifier (my-shared, defs.v2)
     p_subdir: float = 0.0  # probability that a file lives in a subdirectory of the schema root (imports written relative to the importing file)
     p_shared_as_name: float = 0.0  # probability that an import reuses the name an imported file binds to a DIFFERENT file (names are per file)
     std_signed_only: bool = False  # signed ints only of width 8/16/32/64 (big-endian emulation limit, see DESIGN C06)
@@ -259,6 +260,8 @@ class SchemaGen:
         f = File(pname)
         if rng.random() < cfg.basename_differs:
             f.basename = self.pool.proto() + "_file"
+        if not is_main and rng.random() < cfg.p_odd_basename:
+            f.basename = self.pool.proto() + rng.choice(["-file", "-v2", "-x-y", "-2"])  # (a dot would also defeat importlib in the harness)
         if rng.random() < (cfg.p_subdir if not is_main else cfg.p_subdir / 2):
             f.subdir = rng.choice(["lib", "lib/inner", "sub dir", "a/b/c"])
         if imports and rng.random() < cfg.p_subdir / 3:
